@@ -124,6 +124,11 @@ func (l *Layouts) of(T types.Type) *layoutInfo {
 		return li
 	}
 	li := &layoutInfo{}
+	if isReflectValueType(T) {
+		li.leaves = 1
+		l.cache[T] = li
+		return li
+	}
 	switch u := T.Underlying().(type) {
 	case *types.Struct:
 		off := 0
@@ -221,6 +226,9 @@ func (ex *Executor) zeroLeaf(T types.Type) Value {
 
 // zeroLeaves appends the zero leaves of T to out.
 func (ex *Executor) zeroLeaves(T types.Type, out []Value) []Value {
+	if isReflectValueType(T) {
+		return append(out, &ReflectValue{})
+	}
 	switch u := T.Underlying().(type) {
 	case *types.Struct:
 		for i := 0; i < u.NumFields(); i++ {
@@ -238,6 +246,9 @@ func (ex *Executor) zeroLeaves(T types.Type, out []Value) []Value {
 
 // zeroValue builds the register-level zero value of T.
 func (ex *Executor) zeroValue(T types.Type) Value {
+	if isReflectValueType(T) {
+		return &ReflectValue{}
+	}
 	switch u := T.Underlying().(type) {
 	case *types.Struct:
 		a := &AggV{}
@@ -263,6 +274,9 @@ func (ex *Executor) zeroValue(T types.Type) Value {
 
 // flatten appends the leaves of register value v of type T.
 func (ex *Executor) flatten(v Value, T types.Type, out []Value) []Value {
+	if isReflectValueType(T) {
+		return append(out, v)
+	}
 	switch u := T.Underlying().(type) {
 	case *types.Struct:
 		a := v.(*AggV)
@@ -282,6 +296,9 @@ func (ex *Executor) flatten(v Value, T types.Type, out []Value) []Value {
 
 // unflatten rebuilds a register value of type T from leaves; returns the rest.
 func (ex *Executor) unflatten(cells []Value, T types.Type) (Value, []Value) {
+	if isReflectValueType(T) {
+		return cells[0], cells[1:]
+	}
 	switch u := T.Underlying().(type) {
 	case *types.Struct:
 		a := &AggV{elems: make([]Value, u.NumFields())}
